@@ -11,7 +11,7 @@ import random
 
 from .. import codec, tlc
 from ..common import Check
-from diameter.message import Message, MessageHeader, UndefinedMessage, DefinedMessage, AvpGrouped
+from diameter.message import Message, MessageHeader, UndefinedMessage, DefinedMessage, AvpGrouped, Avp
 from diameter.message import commands as cmds
 from diameter.message.commands import all_commands
 
@@ -169,6 +169,23 @@ def run(tier, seed):
             enc = m0.as_bytes()
             if enc != exp:
                 ck.violation("encode_differs", "Message.as_bytes(): %s..., reference %s..." % (enc.hex()[:80], exp.hex()[:80]), rp)
+            # encoding is a function of the message: a second call, and a call after an encoding attempt that failed part-way
+            # through the AVP list (an unencodable AVP inserted, then taken out again), give the same octets
+            elif m0.as_bytes() != exp:
+                ck.violation("encode_differs:second_call", "Message.as_bytes() called twice gives different octets", rp)
+            else:
+                k = len(m0.avps) // 2
+                m0.avps.insert(k, Avp(code=99999, vendor_id=0, payload="not bytes"))
+                try:
+                    m0.as_bytes()
+                    failed = False
+                except Exception:
+                    failed = True
+                m0.avps.pop(k)
+                again = m0.as_bytes()
+                if again != exp:
+                    ck.violation("encode_differs:after_failed_encode", "Message.as_bytes() after an attempt that %s (unencodable AVP at position %d, removed again): %s..., reference %s..." % (
+                        "raised" if failed else "did not raise", k, again.hex()[:80], exp.hex()[:80]), rp)
         except Exception as e:
             ck.violation("encode_raised:%s" % type(e).__name__, "building/encoding a message raised %r" % (e,), rp)
         # generic decoding
@@ -241,6 +258,39 @@ def run(tier, seed):
     if before is not UndefinedMessage or after is not VerifSpecial:
         ck.violation("runtime_registered_command", "command registered at run time: decoded as %s before and %s after registration" % (before.__name__, after.__name__), {"code": 8123456})
     all_commands.pop(8123456, None)
+    # concurrent callers (the node's reader, writer and application threads share the codec): every schedule with one
+    # preemption (two in the thorough tier) at source-line grain; each caller must get what it gets when running alone
+    from .. import concur
+    from diameter.message.packer import Packer, Unpacker
+    from diameter.message import _base as basemod
+    studied = concur.studied_functions([Message, MessageHeader, Packer, Unpacker, basemod._traverse_avp_tree])
+    smalls = [(c, bytes(o["bytes"])) for c, o in zip(cases, outs) if 2 <= len(c["avps"]) <= 5 and len(o["bytes"]) < 600][:4]
+    nconc = 0
+    for i in range(0, len(smalls) - 1, 2):
+        (ca, ba), (cb, bb) = smalls[i], smalls[i + 1]
+
+        def mk(c):
+            h = c["hdr"]
+            return Message(MessageHeader(h["version"], 0, h["flags"], (h["code"][0] << 16) | h["code"][1], (h["app"][0] << 16) | h["app"][1],
+                                         (h["hbh"][0] << 16) | h["hbh"][1], (h["e2e"][0] << 16) | h["e2e"][1]), [codec.build(a[0]) for a in c["avps"]])
+
+        def desc(b):
+            m = Message.from_bytes(b)
+            first = (m.avps[0].code, m.avps[0].vendor_id)
+            return (type(m).__name__, m.header.command_code, m.header.command_flags, len(m.avps), len(m.find_avps(first)), m.as_bytes() == b if not isinstance(m, DefinedMessage) else True)
+        for mode in ("encode", "decode"):
+            def make_jobs():
+                if mode == "encode":
+                    a, b = mk(ca), mk(cb)
+                    return [[a.as_bytes, a.as_bytes], [b.as_bytes]]
+                return [[lambda: desc(ba)], [lambda: desc(bb), lambda: desc(ba)]]
+            for sched_, res, exits, expected in concur.explore_calls(make_jobs, studied, 2 if tier == "thorough" else 1, max_runs=6000):
+                nconc += 1
+                if res != expected or exits:
+                    ck.violation("concurrent_%s_differs" % mode, "two threads %s messages at once: results %r, alone %r (thread exits %r), schedule %r" % (
+                        "encoding" if mode == "encode" else "decoding", str(res)[:160], str(expected)[:160], exits, sched_[:40]), {"mode": mode, "schedule": sched_})
+                    break
+    ck.cov["concurrent_schedules"] = nconc
     ck.cov["evaluations"] = len(cases) + nfind
     ck.cov["distinct_nontrivial"] = len({json.dumps([c["hdr"], [a[1] for a in c["avps"]]], sort_keys=True) for c in cases})
     ck.cov["rule"] = "one evaluation = one message (header x AVP sequence) encoded, decoded generically and typed against the TLA+ reference, or one find_avps call; distinct by reference specification"
